@@ -21,6 +21,8 @@
 (*    x = 2;  [throw Em]  [await 0; print(m,"resume"); <reads>; x = 3;]    *)
 (*    [throw Em]                                                           *)
 (* kind: "s" sync, "st" sync throwing, "a" one top-level await, "at" throws*)
+(* after its await, "ap" throws before it, "aw" awaits three times (a slow *)
+(* body: modules started after it can settle before it does)               *)
 (* after the await, "ap" contains an await but throws before reaching it.  *)
 (* A read of a binding whose module body has not started observes the TDZ  *)
 (* (value 0).                                                              *)
@@ -78,7 +80,7 @@ LoadJobs(m, us) == IF us = <<>> THEN <<>> ELSE <<[t |-> "loaded", m |-> m, r |->
 RECURSIVE LoadLog(_, _)
 LoadLog(m, us) == IF us = <<>> THEN <<>> ELSE <<<<m, Head(us)>>>> \o LoadLog(m, Tail(us))
 
-HasTLA(m) == kind[m] \in {"a", "at", "ap"}
+HasTLA(m) == kind[m] \in {"a", "at", "ap", "aw"}
 ReExports(m) == bind[m] \in {"reexp", "nsreexp"} /\ Len(req[m]) > 0
 NsImporter(m) == bind[m] \in {"ns", "nsreexp"}
 
@@ -277,7 +279,7 @@ Settle(cs, c, st, why) == IF c = 0 \/ cs[c].st # "pending" THEN cs ELSE [cs EXCE
 \* ExecuteAsyncModule(m): the body runs up to its first await (or throws before it); the continuation, or
 \* the settlement of the module's own capability, is a promise job.
 AsyncStartJob(m, k) == IF k = "ap" THEN [t |-> "settled", m |-> m, r |-> 0, e |-> m]
-                    ELSE [t |-> "resume", m |-> m, r |-> 0, e |-> 0]
+                    ELSE [t |-> "resume", m |-> m, r |-> IF k = "aw" THEN 2 ELSE 0, e |-> 0]   \* r: awaits still ahead
 
 \* InnerModuleEvaluation step 11.c for module m after the call for r returned normally, on the given record
 \* state.  Returns the updated fields and whether an error must be thrown (11.c.iv.3).
@@ -356,7 +358,7 @@ EvalBody ==
      /\ \E k \in (IF script.fixed THEN {kind[m]}
                   ELSE IF Cardinality({x \in 1..n : kind[x] # "s"}) >= MaxSpecial THEN {"s"} ELSE Kinds) :
         /\ kind' = [kind EXCEPT ![m] = k]
-        /\ IF pending[m] > 0 \/ k \in {"a", "at", "ap"}
+        /\ IF pending[m] > 0 \/ k \in {"a", "at", "ap", "aw"}
            THEN /\ asyncOrder' = [asyncOrder EXCEPT ![m] = asyncCount]
                 /\ asyncCount' = asyncCount + 1
                 /\ IF pending[m] = 0
@@ -470,7 +472,7 @@ JobResume(m, rest) ==
   /\ out' = out \o ResumeEvents(m)
   /\ val' = [val EXCEPT ![m] = 3]
   /\ threw' = [threw EXCEPT ![m] = (kind[m] = "at")]
-  /\ fin' = [fin EXCEPT ![m] = (kind[m] = "a")]
+  /\ fin' = [fin EXCEPT ![m] = (kind[m] \in {"a", "aw"})]
   /\ jobs' = Append(rest, [t |-> "settled", m |-> m, r |-> 0, e |-> IF kind[m] = "at" THEN m ELSE 0])
 
 JobFulfilled(m, rest) ==
@@ -501,7 +503,10 @@ RunJob ==
      CASE j.t = "loaded" ->
             /\ JobLoaded(j.m, j.r, rest)
             /\ UNCHANGED <<asyncOrder, pending, evalError, caps, execList, act, val, fin, threw, out>>
-       [] j.t = "resume" ->
+       [] j.t = "resume" /\ j.r > 0 ->         \* a slow body: the next of its awaits, one more tick
+            /\ jobs' = Append(rest, [j EXCEPT !.r = @ - 1])
+            /\ UNCHANGED <<status, asyncOrder, pending, evalError, caps, execList, act, val, fin, threw, out, loaded, ld, loaderLog>>
+       [] j.t = "resume" /\ j.r = 0 ->
             /\ JobResume(j.m, rest)
             /\ UNCHANGED <<status, asyncOrder, pending, evalError, caps, execList, act, loaded, ld, loaderLog>>
        [] j.t = "settled" /\ j.e = 0 ->
